@@ -529,3 +529,147 @@ Example C06_ex_wiring_table_order_differs :
                              s_chans := DecodeDefs.mk_chans ConnectProofs.all_models; s_lint := false |} = false.
 Proof. vm_compute. reflexivity. Qed.
 (* ==== end of block (unit connect) ==== *)
+
+(* ==== bay.c from source (unit bayc) ==== *)
+(* src/emu/bay.c is regenerated into Gen/Bay_gen.v on every run (unit bayc; prelude Emu/BayCPre.v: the state is a BayDefs
+   bay + the PRV last values and lines; a channel's name is its bay id; a pointer to a struct bay_cb is the BayDefs callback
+   it denotes; the calls through cur->func are BayDefs.run_dcb / EmuCoreDefs.emit; the DL_FOREACH walks over
+   bay->dirty and bchan->cb[type] are LIVE walks: the successor is read after the body ran).
+   C06_bay_propagate_from_source: the generated bay_propagate IS BayDefs.propagate: dirty phase (every dirty channel, in
+   list order while the list grows; per channel its dirty callbacks in list order while that list grows, the error of a
+   callback stops everything), THEN the emit phase over the final dirty list, THEN the flush phase, THEN the dirty list is
+   emptied; same bay, same PRV table, same lines in the same order, same error codes (E_FUEL included: the iteration
+   bounds are BayDefs'; unreachable by C06_propagate_fuel).  Hypothesis dirty_ok: after the dirty phase every id of the
+   dirty list is a channel and the list is not longer than the channel table (BayProofs: Shape, NoDup of the dirty list).
+   C06_bay_callbacks_from_source: bay_enable_cb / bay_disable_cb of a mux input callback are BayDefs.enable_input /
+   disable_input (APPEND at the end of the input channel's list, the enabled flag, no-ops when already in that state);
+   cb_chan_is_dirty appends the channel to the END of the dirty list and refuses outside READY / PROPAGATING;
+   bay_register refuses a name that is already in the table and otherwise appends the channel with empty callback lists;
+   bay_add_cb(.., cb_select / cb_reselect, mux, 1) leaves the callback ENABLED at the end of the channel's dirty list. *)
+From OV Require Emu.BayCPre Gen.Bay_gen Proofs.BayCProofs.
+
+Theorem C06_bay_propagate_from_source : forall sx st, BayCProofs.dirty_ok (BayCPre.bs_bay st) ->
+  Bay_gen.bay_propagate (Some tt) sx st =
+  match propagate (BayCPre.bs_bay st) (BayCPre.bs_last st) with
+  | Ok (b', last', ls) =>
+    Ok (tt, BayCPre.with_state (BayCPre.with_emit (BayCPre.with_bay st b') last' (BayCPre.bs_lines st ++ ls)) (CInt.cast_uint32 Bay_gen.c_BAY_READY))
+  | Err e => Err e
+  end.
+Proof. exact BayCProofs.bay_propagate_from_source. Qed.
+Print Assumptions C06_bay_propagate_from_source.
+
+Theorem C06_bay_callbacks_from_source :
+  (forall sx st m i mx en c,
+     nth_error (b_muxes (BayCPre.bs_bay st)) m = Some mx -> nth_error (mx_en mx) i = Some en -> nth_error (mx_ins mx) i = Some c ->
+     Bay_gen.bay_enable_cb (Some (BayCPre.CbAt c (BayCPre.WD (DInput m i)))) sx st =
+       match enable_input (BayCPre.bs_bay st) m i with Ok b' => Ok (tt, BayCPre.with_bay st b') | Err e => Err e end /\
+     Bay_gen.bay_disable_cb (Some (BayCPre.CbAt c (BayCPre.WD (DInput m i)))) sx st =
+       match disable_input (BayCPre.bs_bay st) m i with Ok b' => Ok (tt, BayCPre.with_bay st b') | Err e => Err e end) /\
+  (forall sx st c,
+     Bay_gen.cb_chan_is_dirty (Some (BayCPre.CReg c)) (Some (BayCPre.VBchan (BayCPre.BAt c))) sx st =
+     if (BayCPre.bs_state st =? Bay_gen.c_BAY_READY) || (BayCPre.bs_state st =? Bay_gen.c_BAY_PROPAGATING)
+     then Ok (tt, BayCPre.with_bay st (set_dirty_list (BayCPre.bs_bay st) (b_dirty (BayCPre.bs_bay st) ++ c :: nil)))
+     else Err BayCPre.E_FAIL) /\
+  (forall sx st n ch, BayCPre.bn_alloc_ok sx = true ->
+     Bay_gen.bay_register (Some tt) (Some (BayCPre.CNewChan n ch)) sx st =
+     if Nat.ltb n (length (b_chans (BayCPre.bs_bay st))) then Err BayCPre.E_FAIL
+     else if Nat.eqb n (length (b_chans (BayCPre.bs_bay st)))
+          then Ok (tt, BayCPre.with_bay (BayCPre.with_hooked (BayCPre.with_newbchan st (Some (BayCPre.CNewChan n ch))) (n :: BayCPre.bs_hooked st))
+                         {| b_chans := b_chans (BayCPre.bs_bay st) ++ ch :: nil; b_dcbs := b_dcbs (BayCPre.bs_bay st) ++ nil :: nil;
+                            b_ecbs := b_ecbs (BayCPre.bs_bay st) ++ nil :: nil; b_muxes := b_muxes (BayCPre.bs_bay st); b_dirty := b_dirty (BayCPre.bs_bay st) |})
+          else Err BayCPre.E_TRAP) /\
+  (forall sx st c f m d, BayCPre.bn_alloc_ok sx = true -> BayCPre.valid_chan st c = true ->
+     BayCPre.what_of (Some f) (Some (BayCPre.VMux m)) = Some (BayCPre.WD d) ->
+     existsb (dcb_eqb d) (dcbs_of (BayCPre.bs_bay st) c) = false ->
+     exists st', Bay_gen.bay_add_cb (Some tt) Bay_gen.c_BAY_CB_DIRTY (Some (BayCPre.CReg c)) (Some f) (Some (BayCPre.VMux m)) 1 sx st =
+                   Ok (Some BayCPre.CbNew, st') /\
+                 BayCPre.bs_bay st' = set_dcbs (BayCPre.bs_bay st) c (dcbs_of (BayCPre.bs_bay st) c ++ d :: nil)).
+Proof.
+  exact (conj (fun sx st m i mx en c H1 H2 H3 => conj (BayCProofs.enable_input_from_source sx st m i mx en c H1 H2 H3)
+                                                     (BayCProofs.disable_input_from_source sx st m i mx en c H1 H2 H3))
+        (conj BayCProofs.chan_is_dirty_from_source (conj BayCProofs.bay_register_from_source BayCProofs.add_select_cb_from_source))).
+Qed.
+Print Assumptions C06_bay_callbacks_from_source.
+(* under the precondition of C06_propagate_fuel (Pre: the shape of a wired bay between two events) the hypothesis dirty_ok
+   holds, and the generated bay_propagate succeeds exactly when BayDefs.propagate does, never with E_FUEL *)
+Theorem C06_bay_propagate_from_source_pre : forall sx st, Pre (BayCPre.bs_bay st) ->
+  (exists b' last' ls, propagate (BayCPre.bs_bay st) (BayCPre.bs_last st) = Ok (b', last', ls) /\
+     Bay_gen.bay_propagate (Some tt) sx st =
+     Ok (tt, BayCPre.with_state (BayCPre.with_emit (BayCPre.with_bay st b') last' (BayCPre.bs_lines st ++ ls)) (CInt.cast_uint32 Bay_gen.c_BAY_READY)))
+  \/ exists e, e <> E_FUEL /\ propagate (BayCPre.bs_bay st) (BayCPre.bs_last st) = Err e /\ Bay_gen.bay_propagate (Some tt) sx st = Err e.
+Proof. exact BayCProofs.bay_propagate_from_source_pre. Qed.
+Print Assumptions C06_bay_propagate_from_source_pre.
+(* ==== end of block (unit bayc) ==== *)
+
+(* ==== mux construction from source (unit muxc) ==== *)
+(* mux_init, mux_get_input, mux_set_input, mux_add_reselect and mux_set_default of src/emu/mux.c, which unit mux could not
+   take in phase 2 (results of bay_add_cb / bay_find / chan_get_type inside conditions, memset, calloc), are regenerated
+   into Gen/MuxInit_gen.v on every run (unit muxc; prelude Emu/MuxInitPre.v: the struct mux being built next to a BayDefs
+   bay; bay_add_cb has the meaning C06_bay_callbacks_from_source proves of the generated bay.c).
+   C06_mux_init_from_source: on a registered select s and a registered single output u <> s, the generated mux_init ends
+   with: the output DIRTY_WRITE and ALLOW_DUP, cb_select appended ENABLED at the end of the select channel's dirty
+   callbacks, the struct zeroed then filled (selected = 0: the memset value the phase-1 harness found, ninputs, a zeroed
+   inputs table, select_func, no default); read as a BayDefs mux record (MuxInitProofs.record_of) it is the record
+   {init, sel, out, fun, def None, n unset inputs, all disabled, selected Some 0} that Emu/ConnectPre.v's hand-written
+   mux_init appends; nothing else of the bay changes.  C06_mux_init_refusals: a stack output, select = output, an
+   unregistered select are refused.  C06_mux_set_input_from_source: the entry gets index / chan / output and its cb_input
+   (DInput of this mux) is created DISABLED: the bay is unchanged.  C06_mux_reselect_default_from_source. *)
+From OV Require Emu.MuxInitPre Gen.MuxInit_gen Proofs.MuxInitProofs.
+
+Theorem C06_mux_init_from_source : forall custom sx st s u ch f n st',
+  MuxInitPre.me_alloc_ok sx = true -> MuxInitPre.valid st s = true ->
+  nth_error (b_chans (MuxInitPre.mi_bay st)) u = Some ch -> c_stack ch = false -> s <> u ->
+  length (b_dcbs (MuxInitPre.mi_bay st)) = length (b_chans (MuxInitPre.mi_bay st)) ->
+  MuxInit_gen.mux_init (Some tt) (Some tt) (Some s) (Some u) f n sx st = Ok (tt, st') ->
+  MuxInitProofs.record_of custom st' =
+    {| mx_init := true; mx_sel := s; mx_out := u; mx_fun := MuxInitProofs.fun_of f custom; mx_def := None;
+       mx_ins := repeat 0%nat (Z.to_nat (CInt.cast_uint64 n)); mx_en := repeat false (Z.to_nat (CInt.cast_uint64 n)); mx_selected := Some 0%nat |} /\
+  dcbs_of (MuxInitPre.mi_bay st') s = dcbs_of (MuxInitPre.mi_bay st) s ++ DSelect (MuxInitPre.me_id sx) :: nil /\
+  nth_error (b_chans (MuxInitPre.mi_bay st')) u = Some (MuxInitProofs.out_chan ch) /\
+  b_muxes (MuxInitPre.mi_bay st') = b_muxes (MuxInitPre.mi_bay st) /\ b_ecbs (MuxInitPre.mi_bay st') = b_ecbs (MuxInitPre.mi_bay st) /\
+  b_dirty (MuxInitPre.mi_bay st') = b_dirty (MuxInitPre.mi_bay st).
+Proof. exact MuxInitProofs.mux_init_record. Qed.
+Print Assumptions C06_mux_init_from_source.
+
+(* mux_init succeeds under those hypotheses (explicit final state) *)
+Theorem C06_mux_init_succeeds : forall sx st s u ch f n,
+  MuxInitPre.me_alloc_ok sx = true -> MuxInitPre.valid st s = true ->
+  nth_error (b_chans (MuxInitPre.mi_bay st)) u = Some ch -> c_stack ch = false -> s <> u ->
+  exists st', MuxInit_gen.mux_init (Some tt) (Some tt) (Some s) (Some u) f n sx st = Ok (tt, st') /\
+              MuxInitPre.mi_selected st' = 0 /\ MuxInitPre.mi_select st' = Some s /\ MuxInitPre.mi_output st' = Some u /\
+              MuxInitPre.mi_inputs st' = Some (repeat MuxInitPre.input0 (Z.to_nat (CInt.cast_uint64 n))).
+Proof.
+  exact (fun sx st s u ch f n a b c d e =>
+    ex_intro _ _ (conj (MuxInitProofs.mux_init_from_source sx st s u ch f n a b c d e) (conj eq_refl (conj eq_refl (conj eq_refl eq_refl))))).
+Qed.
+Print Assumptions C06_mux_init_succeeds.
+
+Theorem C06_mux_init_refusals : forall sx st s u f n,
+  (forall ch, nth_error (b_chans (MuxInitPre.mi_bay st)) u = Some ch -> c_stack ch = true ->
+     MuxInit_gen.mux_init (Some tt) (Some tt) (Some s) (Some u) f n sx st = Err MuxInitPre.E_FAIL) /\
+  (MuxInit_gen.mux_init (Some tt) (Some tt) (Some u) (Some u) f n sx st = Err MuxInitPre.E_FAIL) /\
+  (forall ch, nth_error (b_chans (MuxInitPre.mi_bay st)) u = Some ch -> c_stack ch = false -> s <> u -> MuxInitPre.valid st s = false ->
+     MuxInit_gen.mux_init (Some tt) (Some tt) (Some s) (Some u) f n sx st = Err MuxInitPre.E_FAIL).
+Proof. exact MuxInitProofs.mux_init_refusals. Qed.
+Print Assumptions C06_mux_init_refusals.
+
+Theorem C06_mux_set_input_from_source : forall sx st i c l o,
+  MuxInitPre.me_alloc_ok sx = true -> MuxInitPre.valid st c = true -> MuxInitPre.mi_link st = Some tt -> MuxInitPre.mi_output st <> Some c ->
+  MuxInitPre.mi_inputs st = Some l -> nth_error l i = Some o -> MuxInitPre.in_chan o = None ->
+  MuxInit_gen.mux_set_input (Some tt) (Z.of_nat i) (Some c) sx st =
+  Ok (tt, MuxInitPre.with_inputs st (Some (update l i
+        {| MuxInitPre.in_index := Z.of_nat i; MuxInitPre.in_chan := Some c; MuxInitPre.in_selected := MuxInitPre.in_selected o;
+           MuxInitPre.in_output := MuxInitPre.mi_output st; MuxInitPre.in_cb := Some (DInput (MuxInitPre.me_id sx) i) |}))).
+Proof. exact MuxInitProofs.mux_set_input_from_source. Qed.
+Print Assumptions C06_mux_set_input_from_source.
+
+Theorem C06_mux_reselect_default_from_source :
+  (forall sx st c, MuxInitPre.me_alloc_ok sx = true -> MuxInitPre.valid st c = true -> MuxInitPre.mi_link st = Some tt ->
+     MuxInit_gen.mux_add_reselect (Some tt) (Some c) sx st =
+     Ok (tt, MuxInitPre.with_bay st (set_dcbs (MuxInitPre.mi_bay st) c (dcbs_of (MuxInitPre.mi_bay st) c ++ DReselect (MuxInitPre.me_id sx) :: nil)))) /\
+  (forall sx st v, MuxInit_gen.mux_set_default (Some tt) v sx st =
+     Ok (tt, MuxInitPre.mk (MuxInitPre.mi_bay st) (MuxInitPre.mi_link st) (MuxInitPre.mi_ninputs st) (MuxInitPre.mi_selected st)
+               (MuxInitPre.mi_inputs st) (MuxInitPre.mi_fun st) (MuxInitPre.mi_select st) (MuxInitPre.mi_output st) v)).
+Proof. exact (conj MuxInitProofs.mux_add_reselect_from_source MuxInitProofs.mux_set_default_from_source). Qed.
+Print Assumptions C06_mux_reselect_default_from_source.
+(* ==== end of block (unit muxc) ==== *)
